@@ -200,6 +200,11 @@ func main() {
 		funcs[funcFull(fn)] = fn
 	}
 	var reports []FuncReport
+	// vacuity guard: a contract block whose key matches no function (and no interface method) of its
+	// package would be ignored silently; report it instead
+	for _, miss := range x.unmatchedContracts(pkgs, funcs) {
+		reports = append(reports, FuncReport{Name: miss, Error: "this contract block matches no function or interface method of the package (wrong key, or the function was renamed or removed?)"})
+	}
 	var anyFn *ssa.Function
 	for _, name := range pc.Functions {
 		if *only != "" && name != *only {
